@@ -67,7 +67,7 @@ def run(ctx):
                 ops.append(("step", [[rng.randrange(4) for _ in range(c["A"])] for _ in range(nw)]))
                 if rng.random() < 0.1:
                     ops.append(("reset",))
-            jobs.append((c, ops, ctx.seed))
+            jobs.append((c, ops, (0 if len(jobs) % 2 else ctx.seed + len(jobs))))      # seed 0 is a seed like any other
 
     # systematic small grid: all endings x leave patterns x episode lengths
     k = 0
